@@ -1,6 +1,7 @@
 """Primitive-level correspondence: the model's CPython/numpy primitives vs the real ones.
 Usable standalone (python -m harness.prims [quick|thorough]) and from property checks."""
 import itertools
+import decimal
 import math
 import random
 import struct
@@ -144,9 +145,7 @@ def cases(tier, rng):
             r = []
         yield [18, b, nd], r, "round"
         if x != 0 and x == x and abs(x) != math.inf:
-            lg = int(math.floor(math.log10(abs(x))))
-            if lg != exact_lg(x):
-                continue   # the C library's log10 rounded up to an integer just below a power of ten: not modelled (DESIGN, trusted base)
+            lg = decimal.Decimal(x).adjusted()   # what FloatField computes (exact)
             try:
                 comp = ["{:.{d}E}".format(round(x, d - lg), d=d)]
             except OverflowError:
